@@ -200,6 +200,11 @@ public:
 #endif
 #if ONETBB_VERIF_SIM
 extern "C" std::uint64_t sim_machine_time_stamp(void);
+extern "C" void sim_probe(const char* name);
+// verification hook: reach counter for rare branches ("this window was hit")
+#define ONETBB_VERIF_PROBE(name) sim_probe(name)
+#else
+#define ONETBB_VERIF_PROBE(name) ((void)0)
 #endif
 inline std::uint64_t machine_time_stamp() {
 #if ONETBB_VERIF_SIM
